@@ -618,6 +618,8 @@ def run(tier):
         rep.sample({"cfg": info["cfg"], "kind": info["kind"], "op": info.get("op"), "events": [e for e in ev if e["ev"] in ("TRY", "A", "RE", "FATAL")][:8]})
     rep.notes["record_level_presentations"] = ntries
     rep.notes["cipher_classes"] = len(cfgs)
+    from . import c02early
+    c02early.part(rep, tier)
     return rep.finish()
 
 
